@@ -30,6 +30,7 @@ type vTOCEntry struct {
 	Type        string `json:"type"`
 	Size        int64  `json:"size"`
 	LinkName    string `json:"linkName"`
+	ModTime3339 string `json:"modtime"`
 	Mode        int64  `json:"mode"`
 	UID         int    `json:"uid"`
 	GID         int    `json:"gid"`
@@ -59,6 +60,7 @@ type vTarEntry struct {
 	Size             int64
 	Mode             int64
 	UID, GID         int
+	ModTime          int64 // unix seconds
 	HdrStart         int64 // uncompressed offset of the first header block
 	DataStart        int64 // uncompressed offset of the payload
 	ContentSHA       string
@@ -257,7 +259,7 @@ func readTarPositions(payload []byte) (ents []vTarEntry, endsAt int64, err error
 		// the previous entry's padding is consumed by Next; the header starts at the next 512 boundary
 		hs := (before + 511) / 512 * 512
 		ents = append(ents, vTarEntry{Name: h.Name, Type: typeName(h.Typeflag), Typeflag: h.Typeflag, Link: h.Linkname, Size: h.Size,
-			Mode: h.Mode, UID: h.Uid, GID: h.Gid, HdrStart: hs, DataStart: dataStart, ContentSHA: sha(data)})
+			Mode: h.Mode, UID: h.Uid, GID: h.Gid, ModTime: h.ModTime.Unix(), HdrStart: hs, DataStart: dataStart, ContentSHA: sha(data)})
 	}
 }
 
